@@ -104,6 +104,7 @@ type env struct {
 	stats *Stats
 	viol  []Violation
 	held  []held
+	owned [][]byte // byte slices built as operands of the current op
 
 	opIdx     int
 	curClass  int
@@ -259,6 +260,25 @@ func (e *env) holdBytes(b []byte, what string) {
 		return
 	}
 	e.held = append(e.held, held{b: b, h: hashBytes(b), op: e.opIdx, what: what})
+}
+
+// own remembers a byte slice that the harness built as (part of) an
+// operand of the current op. The caller owns it: when the op is over the
+// harness overwrites it, as a caller that reuses its buffer would, and
+// what the library returned must not change (runOpSim).
+func (e *env) own(b []byte) []byte {
+	e.owned = append(e.owned, b)
+	return b
+}
+
+func (e *env) scribbleOwned() {
+	for _, b := range e.owned {
+		for i := range b {
+			b[i] = 'Z'
+		}
+		e.stats.Extra["operand_bytes_overwritten_after_the_call"] += len(b)
+	}
+	e.owned = e.owned[:0]
 }
 
 // recheck re-hashes held values: the last `recent` ones, or all of them
